@@ -24,6 +24,12 @@ CLAIMED = {
         "Trusted base: spec/layout.rs acceptor; identification is judged leniently (payload or rendered text).",
         "DESIGN.md section 3, C09",
     ),
+    "C10": (
+        "runtime monitor: envelope generator + independent brace-structure reader; tag->value map comparison of input vs re-serialised output; near-miss malformed headers must be rejected",
+        "Exploration (exhaustive over the 8192 block-3 and 256 block-5 tag subsets): envelopes built from documented components around real bodies of all 30 types (input headers 17/18/21, output headers 46/47, 8/11-character BICs, marker look-alikes inside values) must be accepted and reproduced (blocks 1, 2 byte-identical; blocks 3, 5 as tag->value maps), and headers of wrong length, direction or character class must be rejected.",
+        "Trusted: 40-line brace splitter; malformed classes limited to those the statement names.",
+        "DESIGN.md section 3, C10",
+    ),
     "C11": (
         "runtime monitor, exhaustive: all 10^6 six-digit strings x 15 date fields, all HHMM and signed offsets x 13C/13D; from-scratch calendar oracle, cross-field agreement, digit reproduction, JSON round trip",
         "Exhaustive exploration of the finite space the property quantifies over (1,000,000 dates x 15 field types, 10,000 times, 20,000 offsets, non-digit classes at every position), in MT and JSON: accepted iff calendar-valid, the same digits mean the same date in every field, digits are reproduced, from_value(to_value(v)) == v.",
